@@ -137,6 +137,9 @@ def run(C, R):
             # roots too, inline it, and know what they hand to it (e.g. a classifier of send_or_register's result,
             # which never carries a value next to Pending - R1a)
             callers_ = [c for c, _ in CG.callers_of(fn['path']) if c != fn['path']]
+            if (fn.get('impl_trait') or '').endswith(('convert::From', 'convert::Into')) and \
+                    not (F.adts.get(fn.get('impl_adt') or '') or {'reachable': True}).get('reachable'):
+                continue    # a conversion into a private type: judged where `.into()` / `from()` is used (inlined there)
             if callers_ and not fn.get('reachable') and not fn.get('impl_trait') and all(c in fn_paths for c in callers_) \
                     and (fn['path'] not in layer or all(c in layer for c in callers_)):
                 continue    # (inside the state layer: a helper that only other state functions call)
@@ -214,6 +217,11 @@ def run(C, R):
                 continue
             if poll_variant(E, path) == 'Pending':
                 slot = path.ret[1][1] if path.ret[0] == 'tuple' and len(path.ret[1]) > 1 else None
+                if slot is None and path.ret[0] == 'agg' and path.ret[1] in F.adts and F.adts[path.ret[1]]['kind'] == 'struct':
+                    # a private result struct with named fields: the hand-back slot is the field that can hold a payload
+                    defs = {f_['name']: f_['ty'] for f_ in F.adts[path.ret[1]]['variants'][0]['fields']}
+                    cands_ = [fv for n_, fv in path.ret[3] if n_ in defs and holds_payload_by_value(F, defs[n_])]
+                    slot = cands_[0] if len(cands_) == 1 else None
                 if slot is not None and value_is_none(E, path, slot):
                     R.ok('C08.R1a', '%s|%s' % (sor[0]['path'], path_cond(E, path)))
                 else:
